@@ -61,6 +61,8 @@ def rules(chk, db):
     encrules.composition(chk, db, 'CO', ('ReadPayload', 'Match'))
     chk.rule('NR.r', 'no run-time narrowing integral conversion in any ReadPayload (validation sees the full 64-bit length)', minimum=10)
     encrules.narrowing(chk, db, 'NR.r', {'ReadPayload', 'Read'})
+    chk.rule('PK', 'Match() of every container kind accepts exactly the documented container prefix (BIN for integral sequences)', minimum=30)
+    encrules.prefix_kind(chk, db, 'PK', ('Match',))
     # ReadLimitReached category: an over-long declared length is refused by the reader's Ensure, exactly and overflow-safely
     chk.rule('T', 'Ensure(n) succeeds exactly when n <= limit - pos, overflow-safe', minimum=2)
     for rec in ('nop::BufferReader', 'nop::PedanticBufferReader'):
